@@ -208,6 +208,24 @@ class FullOps(TorchCalls):
             return self.reshape(t, name, args, kwargs, node)
         if name == "narrow":
             return self.narrow(t, args, kwargs, node)
+        if name in ("split", "chunk", "tensor_split"):
+            dim = kwargs.get("dim", args[1] if len(args) > 1 else None)
+            d = self.axis_of(t, dim, node) if dim is not None else 0
+            if d is None:
+                return self.unk("split dim", node)
+            tag = t.axes[d]
+            # consecutive blocks of an axis: each block is a subset of its positions; mapping over the blocks and
+            # concatenating the results restores the axis
+            blk = t.but(axes=t.axes[:d] + ("K",) + t.axes[d + 1:], span=t.span and tag != "C", note="block-of-" + tag)
+            return ListV(items=None, elem=blk, kind="tuple", over=tag + "blocks")
+        if name == "fill_diagonal_":
+            self.ev("inplace", node, alias=t.alias, target=name)
+            if len(t.axes) == 2 and t.axes[0] != t.axes[1]:
+                self.ev("type_error", node, why=f"diagonal of a matrix whose axes {t.axes} index different things")
+                if "R" in t.axes or t.note.startswith("block-of-R") or "K" in t.axes:
+                    self.clear("p", "fill_diagonal_ pairs position k of one axis with row k of the other: which entries are hit depends on the row order", node)
+                return t.but(p=False, poly=None)
+            return t.but(poly=None)
         if name == "diag":
             return self.diag(t, node)
         if name in ("fill_", "zero_", "add_", "sub_", "mul_", "div_", "copy_", "clamp_", "abs_", "neg_", "sqrt_", "normal_",
@@ -639,6 +657,7 @@ class FullOps(TorchCalls):
         lst = self.to_list(seq, "list", node)
         if not isinstance(lst, ListV):
             return self.unk(f"{fn} of non-sequence", node)
+        blocks_of = lst.over[:-6] if lst.items is None and isinstance(lst.over, str) and lst.over.endswith("blocks") else None
         if lst.items is not None:
             tvs = [tv_of(x) for x in lst.items]
             if not tvs or any(t is None for t in tvs):
@@ -669,6 +688,8 @@ class FullOps(TorchCalls):
             axes = e.axes[:dd] + ("K" if e.axes[dd] not in ("R", "C") or lst.items is not None or True else e.axes[dd],) + e.axes[dd + 1:]
             if e.axes[dd] in ("R",) and lst.over is None:
                 axes = e.axes[:dd] + ("K",) + e.axes[dd + 1:]
+            if blocks_of and e.axes[dd] == "K":
+                axes = e.axes[:dd] + (blocks_of,) + e.axes[dd + 1:]
         return e.but(kind=kind, axes=axes, alias=False, span=False, poly=None, layout=((lst.order, fn, d),))
 
     def apply_along_axis(self, args, kwargs, node, env):
